@@ -805,14 +805,19 @@ def precheck_rule(prog, rep, rule="PRECHECK"):
     why = "no candidate"
     for r in raises:
         cond = r.path[0][0]
-        # forms:  SUM(M) > 0 | SUM(M) != 0 | M.any() | len(where(M)[0]) > 0
+        # forms:  SUM(M) > 0 | 0 < SUM(M) | SUM(M) != 0 | SUM(M) >= 1 | M.any()
+        from .pred import npred
+        pn = npred(cond, True)
         inner = None
-        if cond[0] == "cmp" and cond[1] in (">", "!=") and is_const(cond[3], 0):
-            inner = cond[2]
-        elif cond[0] == "cmp" and cond[1] == ">=" and is_const(cond[3], 1):
-            inner = cond[2]
-        elif cond[0] in ("method", "ext"):
-            inner = cond
+        if pn[0] in (">0", "!=0", ">=0"):
+            pd = dict(pn[1])
+            const = pd.pop((), 0)
+            if len(pd) == 1:
+                (mono, coef), = pd.items()
+                if len(mono) == 1 and coef == 1 and ((pn[0] in (">0", "!=0") and const == 0) or (pn[0] == ">=0" and const == -1)):
+                    inner = mono[0]
+        elif pn[0] == "atom" and pn[2] is True:
+            inner = pn[1]
         if inner is None:
             continue
         try:
